@@ -268,7 +268,9 @@ def validate_translation(ctx, q, bins):
     rc2, o2, e2, t2 = sh([rb, 'random', seed, iters], timeout=600, env=ASAN_ENV)
     d1 = [l for l in o1.splitlines() if l.startswith('DIGEST')]
     d2 = [l for l in o2.splitlines() if l.startswith('DIGEST')]
-    return {'iters': q.validate_iters, 'translated': d1[-1] if d1 else 'rc=%d %s' % (rc1, e1[-300:]),
+    fi = [l for l in o2.splitlines() if l.startswith('FAILING-INPUTS')]
+    real_failing = [int(x) for x in fi[0].split()[1:]] if fi else None
+    return {'iters': q.validate_iters, 'real_failing_inputs': real_failing, 'translated': d1[-1] if d1 else 'rc=%d %s' % (rc1, e1[-300:]),
             'real': d2[-1] if d2 else 'rc=%d %s' % (rc2, e2[-600:]), 'agree': bool(d1) and d1 == d2, 'rc': (rc1, rc2)}
 
 
@@ -366,6 +368,15 @@ def run_query(ctx, q, cache, lock):
         if q.validate_iters:
             v = validate_cached(ctx, q, bins, cache, lock)
             r['translation_validation'] = v
+            if not v['agree'] and v.get('real_failing_inputs'):
+                # a harness check fails on the REAL build for a pseudo-random input while the translation behaves differently
+                # (e.g. code under a compiler-specific #if that clang's IR does not contain): replay it, it is evidence by itself
+                meta, path = replay_real(ctx, q, bins, v['real_failing_inputs'], 'check failed on the real build during translation validation')
+                if meta['reproduced']:
+                    r['counterexamples'] = [{'assertion': 'found while validating the translation (sampling on the real build, not by the solver)', 'inputs': v['real_failing_inputs'],
+                                             'reproduced': True, 'real_failed_checks': meta['real_failed_checks'], 'real_sanitizer': meta['real_sanitizer'], 'replay': path}]
+                    r['status'] = 'violated'
+                    return r
             sanitizer_abort = (not v['agree']) and ('Sanitizer' in v['real'] or 'runtime error' in v['real'] or 'ABORTING' in v['real'] or v['rc'][1] not in (0, None))   # incl. std::terminate/abort/signal
             if not v['agree'] and not sanitizer_abort:
                 r['status'] = 'inconclusive'
